@@ -251,6 +251,7 @@ func c13run(sm, useTLS bool, first, lives string) string {
 		time.Sleep(20 * time.Millisecond)
 	}
 	runReturned, runErr := false, "-"
+	stopEarly := ""
 	var cur net.Conn
 	if first == "o" {
 		cur = waitConn(srv.established, 3*time.Second)
@@ -292,6 +293,29 @@ func c13run(sm, useTLS bool, first, lives string) string {
 			srv.mu.Unlock()
 			if refuseMs > 0 {
 				srv.ln.Close() // connection refused for a while
+			}
+			if ending == "dropstop" {
+				// the connection is lost, the server refuses connections, and while the manager is retrying the
+				// application calls Stop: Stop returns and Run returns ("... and Stop makes Run return")
+				srv.ln.Close()
+				cur.Close()
+				time.Sleep(120 * time.Millisecond)
+				sdone := make(chan struct{})
+				go func() { defer func() { recover() }(); mgr.Stop(); close(sdone) }()
+				stopEarly = "true"
+				select {
+				case e := <-runRet:
+					runErr = errClass(e)
+				case <-time.After(3 * time.Second):
+					stopEarly = "false"
+				}
+				select {
+				case <-sdone:
+				case <-time.After(2 * time.Second):
+					stopEarly = "false"
+				}
+				runReturned = true
+				break lifeLoop
 			}
 			switch ending {
 			case "drop":
@@ -375,6 +399,9 @@ func c13run(sm, useTLS bool, first, lives string) string {
 		case <-time.After(2 * time.Second):
 		}
 	}
+	if stopEarly != "" {
+		stopOK = stopEarly
+	}
 	// hellos are counted when a connection's serve loop ends: read the rest now
 	time.Sleep(50 * time.Millisecond)
 	srv.mu.Lock()
@@ -426,6 +453,9 @@ func (c13) Generate(rng *rand.Rand, tier string, st *Stats) []Case {
 	mk(true, "o", "drop:o;drop:o")   // resumed sessions
 	mk(true, "o", "wfail:o;drop:o")  // a loss seen by a failed <a/> write: one new session, the old receiver is gone
 	mk(false, "o", "wfail:t,o;wfail:o")
+	// Stop while the manager is retrying (connections refused): Stop returns, Run returns
+	mk(false, "o", "dropstop:")
+	mk(true, "o", "drop:o;dropstop:")
 	// sessions protected by STARTTLS (the server offers nothing else before the handshake): every new connection has
 	// to go through STARTTLS again, whatever way the previous one ended
 	mkm := func(m, first, lives string) { ops = append(ops, []string{"script", m, first, lives}) }
